@@ -458,6 +458,10 @@ package memfs
 //@   allocates memfs.Dir
 //@   ensures Tree()
 //@   at_call mkdirAll requires $1 == cleanPath(old(destPath))
+// no shortcut: whether the path is free, a directory or taken by a file is mkdirAll's verdict
+//@   trace mkdirAll as MKDIRALL bind made
+//@   trace_ensures true : ^MKDIRALL $
+//@   ensures err == made.1
 //@ func (*Filespace).ReadFile [C01 C09]
 //@   requires FsInv(fs)
 //@   modifies $none
